@@ -1,6 +1,7 @@
 package main
 
 import (
+	"sync/atomic"
 	"fmt"
 	"os"
 	"go/constant"
@@ -81,6 +82,7 @@ type Obligation struct {
 	smts    []string
 	variants [][]string
 	trivial bool
+	failedAlready atomic.Bool
 }
 
 type Verifier struct {
